@@ -133,6 +133,12 @@ func mergeProcessInput(gf *lfs.GitFilter, filename string, fileSpecifiers map[st
 	}
 	defer fp.Close()
 	_, err = gf.Smudge(file, pointer, file.Name(), true, getTransferManifestOperationRemote("download", cfg.Remote()), cb)
+	if err != nil {
+		// Without the object there is nothing to merge: an empty file
+		// is not this version.
+		os.Remove(file.Name())
+		Exit(tr.Tr.Get("could not get the content of %s when merging: %s", filename, err))
+	}
 }
 
 func init() {
